@@ -213,6 +213,10 @@ parser! {
             / c_comment()
             / c_another_comment()
 
+        // the pieces of a line in front of its trailing comment, without the quoted texts
+        pub rule code_part() -> Vec<&'input str>
+            = p:(string() { "" } / ch() { "" } / c:$(!comment() [_]) { c })* [_]* { p }
+
         // instruction line
         pub rule instruction_line() -> Document
             = l:label()? space() o:operation() space() ol:op_list() space() comment()? {Document::CodeLine(Box::new(l), o, ol)}
